@@ -1,6 +1,6 @@
 """Per-property claims rendered into MANIFEST.json by tools/mkmanifest.py."""
 HOOK_COMMITS = []   # no source hooks needed so far
-FIX_COMMITS = ["e5d4816 fix: multiblock_if opens its blocks under an explicit true condition (C10)", "0db9b37 fix: rule row ends at its first parameter (C06, C07)", "944e092 fix: juniper cmd_paths word boundary (C01)", "fe40c21 fix: cumulus refuses before emitting (C14)", "8acdda3 fix: cisco vlandb keeps VLANs of unchanged lines (C11)", "6c8c7e3 fix: huawei next_hop return (C14)", "42d8898 fix: arista large-community-list ACL (C14)", "9c40074 fix: refuse before emitting (C14)", "750ea7d fix: RouterOS join nested sections (C04)", "e01415d fix: optixtrans match expression (C18)", "12c75c5 fix: make_patch op order (C13)", "8c66073 fix: resolved pointers escaped (C13)", "4756b94 fix: huawei multi_all unchanged lines (C11)", "81e31d8 fix: implicit default block with its defaults (C17)", "5bfc12a fix: order_config word boundary (C08)", "943f14e fix: patch sort key (C08)", "1bcbbe1 fix: rewrite logic sends the new line ... (C01)", "28efb2a fix: file mode builds the patch from the complete diff (C16)", "c62ee59 fix: pool parent loop leaves only when the done queue is drained (C12)"]
+FIX_COMMITS = ["5a30504 fix: a string is not an array when JSON pointer patterns are resolved (C13)", "e5d4816 fix: multiblock_if opens its blocks under an explicit true condition (C10)", "0db9b37 fix: rule row ends at its first parameter (C06, C07)", "944e092 fix: juniper cmd_paths word boundary (C01)", "fe40c21 fix: cumulus refuses before emitting (C14)", "8acdda3 fix: cisco vlandb keeps VLANs of unchanged lines (C11)", "6c8c7e3 fix: huawei next_hop return (C14)", "42d8898 fix: arista large-community-list ACL (C14)", "9c40074 fix: refuse before emitting (C14)", "750ea7d fix: RouterOS join nested sections (C04)", "e01415d fix: optixtrans match expression (C18)", "12c75c5 fix: make_patch op order (C13)", "8c66073 fix: resolved pointers escaped (C13)", "4756b94 fix: huawei multi_all unchanged lines (C11)", "81e31d8 fix: implicit default block with its defaults (C17)", "5bfc12a fix: order_config word boundary (C08)", "943f14e fix: patch sort key (C08)", "1bcbbe1 fix: rewrite logic sends the new line ... (C01)", "28efb2a fix: file mode builds the patch from the complete diff (C16)", "c62ee59 fix: pool parent loop leaves only when the done queue is drained (C12)"]
 PENDING = {}
 CLAIMS = {
     "C14": {
@@ -262,3 +262,5 @@ _add("C01", "note", "Known gap: block rules whose header text changes under one 
 _add("C13", "note", "Known gap: --acl-safe together with --filter-acl through annet.gen._old_new_per_device's file branch is not driven.")
 _add("C17", "note", "Known gap: --acl-safe runs (completion of the safe config) are not driven.")
 _add("C03", "note", "Known gap: %multiline rules (a vendor diff logic) are outside the catalogue.")
+_add("C13", "text", "The production path annet.gen._old_new_per_device is driven for a file device with a real JSONFragment generator, the device's document downloaded, with and without --acl-safe and --filter-acl (judged as a merge, or as the filter applied to the merge). Documents hold string scalars.")
+_add("C13", "note", "Third-party known findings (jsonpatch cross-container move; array elements differing only in JSON type).", replace="Known gap: --acl-safe together with --filter-acl through annet.gen._old_new_per_device's file branch is not driven.")
